@@ -1119,6 +1119,7 @@ def check_C18(ctx, deep=False):
                     ctx.sample({"pos": posr["op"][:100], "last_info": d["info_list"][-1]})
     if not ctx.bs.engine_error:
         live_info_sessions(ctx, k, 6 if q else 60)
+        back_to_back_info_sessions(ctx, k, 6 if q else 40)
 
 
 def live_info_sessions(ctx, k, n):
@@ -1152,6 +1153,53 @@ def live_info_sessions(ctx, k, n):
                 infos.append(m.group(1))
         ctx.case((pl, "live"), len(infos) >= 2)
         check_info_lines(ctx, infos, legal.get(pl), k, [pl, "live"])
+
+
+def back_to_back_info_sessions(ctx, k, n):
+    """two searches back to back in one process: the first on a position with exactly ONE legal move
+    (forced reply; slice 0.8 s) or on a queen lattice with a tiny slice (its search thread outlives the
+    answer), the second right after the first answer — the info lines printed between the second `go`
+    and its `bestmove` must all belong to the second search: grammar, depth order, strictly increasing
+    scores within a depth, first PV move legal in the SECOND position"""
+    firsts = [(o[4:], "go movestogo 1 wtime 1100 btime 1100") for o in C.genops("fewmoves", ctx.seed + 13, n, 1, 60) if o.startswith("pos ")]
+    firsts += [(o[4:], "go wtime 250 btime 250") for o in C.genops("heavy", ctx.seed + 13, max(2, n // 2)) if o.startswith("pos ")]
+    seconds = [o for o in C.genops("search", ctx.seed + 14, len(firsts), 30) if o.startswith("pos ")]
+    legal = {}
+    res = C.run_ops([x for p in seconds for x in (p, "gen all")])
+    for i in range(0, len(res), 2):
+        legal[res[i]["op"]] = set(m[:4] for m, _ in C.succ_list(res[i + 1]["S"] if res[i + 1]["S"] != "-" else res[i + 1]["I"]))
+    plans = [(f, g, seconds[i % len(seconds)]) for i, (f, g) in enumerate(firsts)] if seconds else []
+
+    def one(plan):
+        f, g, sec = plan
+        e = S.Engine()
+        try:
+            if not S.handshake(e):
+                return plan, None
+            e.send(f)
+            r1 = S.go_and_wait(e, g, 10)
+            if not r1["answered"]:
+                return plan, None
+            e.send(sec[4:])
+            r2 = S.go_and_wait(e, "go wtime 6100 btime 6100", 10)
+            return plan, r2
+        finally:
+            e.kill()
+    for plan, r in S.run_parallel(one, plans, workers=6):
+        f, g, sec = plan
+        ctx.count("back_to_back_sessions")
+        if r is None or not r["answered"]:
+            ctx.fail("live-session-unanswered", pos=sec, after=f)
+            continue
+        infos = []
+        for l in r["infos"]:
+            m = re.match(r"^(.*) time (\d+)$", l)
+            if not m:
+                ctx.fail("info-grammar", line=l, where=[f, g, sec, "second search"])
+            else:
+                infos.append(m.group(1))
+        ctx.case((f, sec, "b2b"), len(infos) >= 2)
+        check_info_lines(ctx, infos, legal.get(sec), k, [f, g, sec, "info lines of the second search"])
 
 
 def check_C12(ctx, deep=False):
@@ -1219,6 +1267,9 @@ def check_C10(ctx, deep=False):
     q = ctx.quick
     n = (150 if q else 4000) * (3 if deep else 1)
     ops = C.genops("rep", ctx.seed, n, 24, 6, "searchd_2")
+    # more histories with a mixture of once- and twice-seen positions near the root, one iteration
+    # deeper (the record is read and written at every node of the line: add, remove, lookup)
+    ops += C.genops("rep", ctx.seed + 4, (450 if q else 6000) * (3 if deep else 1), 16, 3, "searchd_3")
     # deeper iterations (null-move pruning active): only the ">= 0" clause is judged there — it is
     # proved for every depth (root_score_nonneg_every_depth); exact values are not claimed beyond 3
     ops += C.genops("rep", ctx.seed + 2, 24 if q else 600, 20, 6, "searchd_4")
@@ -1266,6 +1317,37 @@ def check_C10(ctx, deep=False):
             judge_depths(ctx, posr, srs[0], k, len(succ))
         elif srs[0]["I"] == "panic":
             ctx.fail("search-panic", where=[posr["op"], srs[0]["op"]])
+    # the repetition record as a data structure on its own: random scripts of add / remove / lookup /
+    # clear over a few keys with the discipline of the search (a remove only for an earlier add),
+    # against the model and against plain occurrence counting
+    rnd = random.Random(ctx.seed + 31)
+    dops = []
+    for _ in range((400 if q else 20000) * (3 if deep else 1)):
+        keys = list(range(rnd.randrange(1, 6)))
+        counts = {}
+        toks = []
+        stack = []
+        for _ in range(rnd.randrange(1, 40)):
+            r = rnd.random()
+            k = rnd.choice(keys)
+            if r < 0.4:
+                toks.append("a%d" % k); counts[k] = counts.get(k, 0) + 1; stack.append(k)
+            elif r < 0.65 and stack:
+                k = stack.pop(rnd.randrange(len(stack)) if rnd.random() < 0.3 else -1)
+                toks.append("r%d" % k); counts[k] -= 1
+            elif r < 0.97:
+                toks.append("q%d" % k)
+            else:
+                toks.append("c"); counts = {}; stack = []
+        toks += ["q%d" % k for k in keys]
+        dops.append("dt " + " ".join(toks))
+    for r in C.run_ops(dops):
+        ctx.case(r["op"], "1" in (r["S"] or ""))
+        ctx.traces += 1
+        if r["M"] != r["I"]:
+            ctx.t2diff(r)
+        if r["I"] != r["S"]:
+            ctx.fail("repetition-record-data-structure", op=r["op"], impl=r["I"], spec=r["S"])
     if not ctx.bs.engine_error:
         stale_table_session(ctx)
         run_traced(ctx, ["rep"], 8 if q else 60)
@@ -1863,6 +1945,61 @@ def continuation_sessions(ctx, plies):
                 ctx.fail(kind, stem=plan[0], persistent_plays=plan[1], **(d or {}))
 
 
+def outliving_thread_sessions(ctx):
+    """earlier traffic whose search thread OUTLIVES its go (queen lattice, small slice): afterwards the
+    same zero-allowance request is put again and again for a few seconds — while the old thread is
+    still running, when it ends, and after — and every answer must be the fresh engine's answer"""
+    q = ctx.quick
+    heavy = [o[4:] for o in C.genops("heavy", ctx.seed + 15, 3 if q else 12) if o.startswith("pos ")]
+    probes = ["position startpos moves e2e4 e7e5", "position startpos", "position fen r3k2r/8/8/8/8/8/8/R3K2R w KQkq - 0 1"]
+
+    def fresh(pos):
+        e = S.Engine()
+        try:
+            if not S.handshake(e):
+                return None
+            e.send(pos)
+            r = S.go_and_wait(e, "go", 6)
+            return r["best"] if r["answered"] else None
+        finally:
+            e.kill()
+    expect = dict((p, fresh(p)) for p in probes)
+
+    def one(plan):
+        h, probe = plan
+        e = S.Engine()
+        out = []
+        try:
+            if not S.handshake(e):
+                return plan, None
+            e.send(h)
+            r1 = S.go_and_wait(e, "go wtime 350 btime 350 movestogo 1", 15)
+            if not r1["answered"]:
+                return plan, None
+            t_end = time.time() + (5.0 if q else 9.0)
+            while time.time() < t_end:
+                e.send(probe)
+                r = S.go_and_wait(e, "go", 6)
+                out.append(r["best"] if r["answered"] else None)
+                time.sleep(0.25)
+            return plan, out
+        finally:
+            e.kill()
+    plans = [(h, probes[i % len(probes)]) for i, h in enumerate(heavy)]
+    for plan, out in S.run_parallel(one, plans, workers=6):
+        h, probe = plan
+        ctx.count("outliving_thread_sessions")
+        ctx.case(("outlive", h, probe), True)
+        if out is None:
+            ctx.fail("session-unanswered", position=probe, traffic=[h, "go wtime 350 btime 350 movestogo 1"])
+            continue
+        bad = [(i, a) for i, a in enumerate(out) if a != expect[probe]]
+        if bad:
+            ctx.fail("zero-allowance-answer-depends-on-history", position=probe,
+                     traffic=[h, "go wtime 350 btime 350 movestogo 1", "(then the probe repeated every 0.25 s)"],
+                     fresh=expect[probe], after=bad[0][1], which_repeat=bad[0][0], again=out[-1])
+
+
 def check_C16(ctx, deep=False):
     ctx.rule = ("black-box pairs: the probed `position X` + `go` in a fresh process and after prior traffic (games with repetitions, "
                 "searches, ucinewgame, setoption, garbage, consecutive go's); zero allowance => identical bestmove; timed (two "
@@ -1940,6 +2077,7 @@ def check_C16(ctx, deep=False):
                     ctx.fail("reported-improvements-depend-on-history", which=name, position=pos, traffic=traffic,
                              a=x[:m][-2:], b=y[:m][-2:])
     continuation_sessions(ctx, 10 if q else 24)
+    outliving_thread_sessions(ctx)
     run_traced(ctx, ["cont", "rep", "gogo", "garbage"], 8 if q else 60)
     # static audit of process-global state (T3)
     hits = []
